@@ -1440,6 +1440,9 @@ func runDecodeCell(p *Program, dec, newRR *ssa.Function, cell decCell) decResult
 			if !okg || !segsEqual(o.St.dropEmptyRuns(got), o.St.dropEmptyRuns(want), o.St.sameVal) {
 				fail("decoded message %s, SMF 1.0 grammar gives %s", arrayString(&ArrayV{Segs: got}), arrayString(&ArrayV{Segs: want}))
 			}
+			if !ex.freshSlice(o, msg) {
+				fail("the decoded message shares storage that outlives the call (a buffer of the reader or a package-level scratch buffer): the events of a track would all show the bytes of the last one")
+			}
 			if rdr == nil || !termEq(o.St.TermOf(rdr.Pos), consumed) {
 				fail("consumed %v bytes after the first byte, grammar says %s", rdr.Pos, consumed)
 			}
